@@ -61,7 +61,9 @@ def mk_graph_project(rng, depth=None):
     meta["chain"] = chain_args
     # the reference may be the very first item of the string (what it resolves to then *starts* the value: a number or boolean
     # literal joined with the text that follows), the last one, or the only one
-    wraps = [rng.pick([(f"<{d}:", ">"), (f"<{d}:", ">"), ("", f" tail{d}"), ("", ""), (f"head{d} ", "")]) for d in range(depth)]
+    # ... and what stands before / after it may itself be a variable or a component (everything around a reference is parsed like any text)
+    wraps = [rng.pick([(f"<{d}:", ">"), (f"<{d}:", ">"), ("", f" tail{d}"), ("", ""), (f"head{d} ", ""),
+                       ("{{ pre }}, ", " ({{ pre }})"), ("<b>x</b> ", ""), ("{{ pre }}", "<b>{{ pre }}</b>")]) for d in range(depth)]
     meta["wraps"] = wraps
     for l in locales:
         pairs = []
@@ -115,6 +117,11 @@ RANGE_SHAPES = [
     ("f32", [["..0.0"], ["0.0..15.0"], ["15.0..30.0"]], [-0.5, 0.0, 14.5, 15.0, 29.5, 30.0]),
     ("f64", [["..=1.5"], ["1.5..2.5", "7.25"], ["2.5..=4.0"]], [1.5, 1.25, 2.5, 2.25, 4.0, 4.5, 7.25]),
 ]
+
+
+def wrap_text(s):
+    """what the text around a reference denotes in the oracle's environment (variables and components are left symbolic there)"""
+    return (s.replace("<b>{{ pre }}</b>", "⟨comp_b⟩⟦var_pre⟧⟨/comp_b⟩").replace("<b>x</b>", "⟨comp_b⟩x⟨/comp_b⟩").replace("{{ pre }}", "⟦var_pre⟧"))
 
 
 def cyclic_projects(nkeys):
@@ -288,7 +295,9 @@ def walk_family_oracle(ctx, p, o, i):
 
 
 PLURAL_FORMS_BY_LOCALE = {"en": ["one", "other"], "fr": ["one", "many", "other"], "ru": ["one", "few", "many", "other"],
-                          "pl": ["one", "few", "many", "other"], "ja": ["one", "other"], "ar": ["zero", "one", "two", "few", "many", "other"]}
+                          "pl": ["one", "few", "many", "other"], "ja": ["one", "other"], "ar": ["zero", "one", "two", "few", "many", "other"],
+                          # two locales of one language whose rules differ (0 and 1.5 are `one` in pt, `other` in pt-PT)
+                          "pt": ["one", "many", "other"], "pt-PT": ["one", "many", "other"]}
 
 
 def plural_fallback_family(rng, n):
@@ -297,7 +306,8 @@ def plural_fallback_family(rng, n):
     locale the reference is rendered in (what `td_string!(locale, files, count = c)` does at run time)."""
     out = []
     for _ in range(n):
-        others = rng.sample(["fr", "ru", "pl", "ja", "ar"], rng.range(2, 3))
+        others = rng.sample(["fr", "ru", "pl", "ja", "ar", "pt", "pt-PT", "pt-PT"], rng.range(2, 3))
+        others = list(dict.fromkeys(others)) if len(set(others)) >= 2 else ["pt-PT", "fr"]
         locs = ["en"] + others
         inherits = {}
         if rng.chance(2, 3):
@@ -351,6 +361,30 @@ def plural_fallback_oracle(ctx, p, o, i):
                     "case": project_text(p), "locale": l, "key": f"nf{c}", "forms_taken_from": src, "category_in_rendering_locale": cat,
                     "expected_by_spec": exp, "implementation": got, "harness": "parser_h pipeline + denotation"})
                 return
+
+
+def qualifier_projects():
+    """a reference names its target by `key` or `namespace:key`; a qualifier that names no namespace of the project does not resolve —
+    in particular in a project without namespaces, whatever keys exist (with namespaces the qualifier is mandatory: documented)"""
+    out = []
+    mk = lambda files, ns, expect: {"default": "en", "locales": ["en"], "all_locales": ["en"], "namespaces": ns, "inherits": {}, "files": files,
+                                    "extra_cfg": False, "meta": {}, "qualifier_expect": expect}
+    for ref in ("common:bar", "bar:bar", "en:bar", "common:grp.x"):
+        out.append(mk({(None, "en"): proj.O([("bar", "BAR"), ("grp", proj.O([("x", "X")])), ("dangling", f"before $t({ref}) after")])}, None, "rejected"))
+    out.append(mk({(None, "en"): proj.O([("bar", "BAR"), ("fine", "before $t(bar) after")])}, None, "accepted"))
+    for ref, expect in (("common:bar", "accepted"), ("home:bar", "rejected"), ("other:bar", "rejected"), ("bar", "rejected"), ("home:own", "accepted")):
+        out.append(mk({("common", "en"): proj.O([("bar", "BAR"), ("k", f"before $t({ref}) after")]), ("home", "en"): proj.O([("own", "OWN")])},
+                      ["common", "home"], expect))
+    return out
+
+
+def qualifier_oracle(ctx, p, o, i):
+    ctx.seen(project_text(p), nontrivial=True)
+    ok = "ok" in o["ci"]
+    if ok != (p["qualifier_expect"] == "accepted"):
+        report_violation(ctx, "foreign:namespace-qualifier", {"case": project_text(p), "expected_by_spec": p["qualifier_expect"],
+                                                             "implementation": "accepted" if ok else o["impl"].get("result"),
+                                                             "why": "a reference resolves to the key it names in the namespace it names; a project with namespaces requires the qualifier, one without has none to name"})
 
 
 def subkey_target_projects():
@@ -459,7 +493,7 @@ def make_oracle(binp):
                     prefix += g["wraps"][k - 1][0]
                     suffix = g["wraps"][k - 1][1] + suffix
                     env = subst_env(env, g["chain"][k - 1], parse_arg)
-                exp = prefix + pv_eval(env, tv) + suffix
+                exp = wrap_text(prefix) + pv_eval(env, tv) + wrap_text(suffix)
                 if got != exp:
                     report_violation(ctx, "foreign:not-pure-substitution", {
                         "case": project_text(p), "locale": l, "key": f"r{d}", "chain_args": g["chain"][:d], "target_kind": g["kind"],
@@ -493,6 +527,7 @@ def run(ctx):
         generic_pipeline_check(ctx, [], walk_family(rng, ctx.budget(600, 20000)), walk_family_oracle, "C06-fallback-walk")
         generic_pipeline_check(ctx, [], plural_fallback_family(rng, ctx.budget(200, 5000)), plural_fallback_oracle, "C06-plural-fallback")
         generic_pipeline_check(ctx, [], subkey_target_projects(), subkey_oracle, "C06-subkey-targets")
+        generic_pipeline_check(ctx, [], qualifier_projects(), qualifier_oracle, "C06-qualifiers")
         more = [proj.gen_project(rng, {"fk": True}) for _ in range(ctx.budget(300, 6000))]
         generic_pipeline_check(ctx, [], more, lambda c, p, o, i: None, "C06-generated")
     finally:
